@@ -161,3 +161,4 @@ func verif_C01_server() {
 	verifAssert(wf && len(reps) == 6 && reps[5].code == 250, "C01.server-message-accepted")
 	verifReach("C01.server-end")
 }
+func verif_C01_two_messages() { verifTwoMessages("C01") }
